@@ -10,6 +10,8 @@ import (
 	"fmt"
 	"strings"
 
+	"github.com/nyaruka/goflow/flows/definition"
+
 	"verifharness/pkg/hx"
 )
 
@@ -229,7 +231,10 @@ func (d *driver) runReadChecks(r *hx.Rand, n int) {
 			continue
 		}
 		var reads bool
-		pan := guard(func() { reads = readsOK(x) })
+		pan := guard(func() {
+			_, err := definition.ReadFlow(x, nil)
+			reads = err == nil
+		})
 		d.res.OracleChecks++
 		if pan != "" {
 			d.res.Fail(panicClass(pan, x), failInput("read", x, map[string]any{"change": how}), "panic while reading a definition")
